@@ -186,8 +186,11 @@ fn hostile_payload(rng: &mut impl Rng, ty: &[u8; 4]) -> Vec<u8> {
             4 => vec![0xff, 0xff],
             _ => b"$unknown$x=1$c2FsdHNhbHQ".to_vec(),
         },
-        b"cTIM" | b"mTIM" | b"aTIM" => match rng.gen_range(0..4) {
+        b"cTIM" | b"mTIM" | b"aTIM" => match rng.gen_range(0..6) {
             0 => vec![0xff; 8],
+            // seconds + a sub-second field (a layout a later format revision might use): values that overflow when combined
+            4 => vec![0xff, 0xff, 0xff, 0xff, 0xff, 0xff, 0xff, 0xff, 0x3b, 0x9a, 0xca, 0x00],
+            5 => { let mut v = vec![0xff; 8]; v[7] = 0xfc + rng.gen_range(0..4u8); v.extend_from_slice(&u32::MAX.to_be_bytes()); v }
             1 => { let n = size(rng, 12); bytes(rng, n) }
             _ => bytes(rng, 8),
         },
